@@ -2,7 +2,7 @@
 """Re-run every kept seeded change against the checks (regression test of the machinery itself).
   breaking changes (seeded/<id>/ without a trailing q): at least one of the checks named in
       meta.json caught_by (not marked silent / not applicable) must exit 1;
-  property-preserving changes (seeded/<id>q/ and seeded/<id>r/): all 20 quick checks must exit 0.
+  property-preserving changes (seeded/<id>q/, <id>r/, <id>s/): all 20 quick checks must exit 0.
 Applies each patch to /repo, runs, restores /repo (never commits). Writes seeded/RESULTS.md.
 usage: run_seeded.py [id ...]   (default: all)"""
 import json, os, re, subprocess, sys
@@ -12,7 +12,9 @@ ids = sys.argv[1:] or sorted(d for d in os.listdir(f"{V}/seeded") if os.path.isf
 rows, bad = [], 0
 for i in ids:
     meta = json.load(open(f"{V}/seeded/{i}/meta.json"))
-    preserving = i.endswith("q") or i.endswith("r")
+    if meta.get("skip"):
+        rows.append((i, "-", "skipped: " + meta.get("kind", ""))); continue
+    preserving = i[-1] in "qrs"
     if i == "C04r":
         # preserves C04, breaks C15 (see its meta.json): C15 must report it, everything else stays silent
         out = subprocess.run([f"{V}/scripts/try_mutant.sh", f"{V}/seeded/{i}/patch.diff"] + ALL, capture_output=True, text=True).stdout
